@@ -44,6 +44,7 @@ def main():
     ap.add_argument('dir')
     ap.add_argument('--checks', default='')
     ap.add_argument('--skip-confirm', action='store_true')
+    ap.add_argument('--no-regen', action='store_true')
     a = ap.parse_args()
     d = os.path.abspath(a.dir)
     meta = json.load(open(os.path.join(d, 'meta.json')))
@@ -80,8 +81,11 @@ def main():
     finally:
         sh(f'git -C /repo worktree remove --force {wt}')
         shutil.rmtree(wt, ignore_errors=True)
-        # the checks regenerate Gen files from REGIONS_SRC; regenerate from /repo again
-        sh(f'cd {VERIF} && python3 tools/instantiate.py')
+        # the checks regenerate Gen files from REGIONS_SRC; regenerate them from /repo again
+        if not a.no_regen:
+            env = dict(os.environ)
+            env.pop('REGIONS_SRC', None)
+            sh(f'cd {VERIF} && ./check setup', env=env)
 
 
 if __name__ == '__main__':
